@@ -1,6 +1,7 @@
 import Driver.Codec
 import TakVerif.Impl.Alloc
 import TakVerif.Impl.Book
+import TakVerif.Impl.Bot
 namespace Driver
 open Tak
 
@@ -15,6 +16,7 @@ structure St where
   -- C04 (opening book) session: the book built by the last `book`/`realbook` op
   symBook : Option Tak.Book := none
 deriving Inhabited
+  bot : Option Tak.Bot.Session := none      -- C07: the bot game of the current `case`
 
 /-- a handler returns `none` when the op is not its own -/
 abbrev Handler := St → String → List String → Option (St × String)
